@@ -50,6 +50,9 @@ def validate_all(module, cfg, results, ev, pid, keep=(), xmx="3g", timeout=1500,
             ok, line, r = fu.result()
             ev.tlc(r)
             import re as _re0
+            nk = len(_re0.findall(r'<<"ESCAPE-KNOWN"', r.out))
+            if nk:
+                ev.add("escape_known_lines", nk)
             for m in _re0.finditer(r'<<"STATS", (\d+), (\d+), <<(\d+), (\d+), (\d+), (\d+)>>', r.out):
                 ev.add("cases_definition_accepts", int(m.group(1)))
                 ev.add("cases_definition_rejects", int(m.group(2)))
